@@ -235,6 +235,9 @@ func runCheck(repo, id, tier string) int {
 			for _, c := range lc.Invariants {
 				addModes(c)
 			}
+			for _, c := range lc.Steps {
+				addModes(c)
+			}
 		}
 		if !tagged {
 			continue
@@ -551,6 +554,7 @@ var assumptionText = map[string]string{
 	"A-ZLIB":    "zlib.NewReader/io.Copy inflate exactly the bytes handed to them or report an error",
 	"A-IMG":     "representation invariants of image.* types; color.Color.RGBA returns alpha-premultiplied 16-bit channels",
 	"A-DET":     "assumed contract clauses (kind `assumes`): each extractMetadata result is a deterministic function of the bytes of its input",
+	"A-STDSRC":  "integer-only standard library functions (image.*.PixOffset, At/Set accessors, color conversions) are executed symbolically from the installed standard library's source",
 	"A-PAR":     "sync.Once.Do and parallel.RunWorkers behave as documented",
 }
 
